@@ -24,9 +24,12 @@ type histParams struct {
 	Drain  bool     `json:"drain"`
 	Tx     bool     `json:"tx"`     // transaction universe + subscription
 	Live   bool     `json:"live"`   // C07 liveness phase at the end
+	CountPoints  bool `json:"count_points,omitempty"` // sched mode baseline: only count scheduling points
 	Adversarial  bool `json:"adversarial"`   // C02: named tree + raw header/block events
 	StartUnknown bool `json:"start_unknown"` // start hash is a block the node has not seen at boot (pre-start mode)
-	ExtraDepth int  `json:"extra_depth"` // explore this scenario deeper than the check's base depth
+	ExtraDepth int  `json:"extra_depth"`
+	Plan   []planStep     `json:"plan,omitempty"`    // sched mode: deviations inserted at scheduling points
+	SelAlt map[string]int `json:"sel_alt,omitempty"` // sched mode: alternatives at multi-ready selects // explore this scenario deeper than the check's base depth
 }
 
 // bootSync drives a freshly started node until it has converged to the peer's chain and told
@@ -143,6 +146,15 @@ func (w *World) applyEvent(ev string) bool {
 		}
 	case "settle":
 		w.settleMacro()
+	case "multi": // multi:<ev>|<ev>|...: several deliveries before anything runs (concurrent arrivals)
+		w.batching = true
+		for _, sub := range strings.Split(strings.TrimPrefix(ev, "multi:"), "|") {
+			w.hist = w.hist[:len(w.hist)]
+			w.applyEvent(sub)
+			w.hist = w.hist[:len(w.hist)-1]
+		}
+		w.batching = false
+		w.settle()
 	default:
 		handled, ok := w.applyTxEvent(p)
 		if !handled {
@@ -322,6 +334,20 @@ func runHist(p histParams, hist []string, withDrain bool) *histRun {
 	if p.Cfg.Untrusted > 0 {
 		w.SetupUntrusted(p.Cfg.Untrusted)
 	}
+	if len(p.Plan) > 0 || p.SelAlt != nil || p.CountPoints {
+		w.installPlan(p.Plan)
+		for k, v := range p.SelAlt {
+			var i int
+			fmt.Sscan(k, &i)
+			if w.plan.SelAlt == nil {
+				w.plan.SelAlt = map[int]int{}
+			}
+			w.plan.SelAlt[i] = v
+		}
+		if p.Boot == "synced" {
+			w.plan.suspended = true // deviations apply to the explored history, not to the common boot
+		}
+	}
 	w.StartNode()
 	w.settle()
 	if p.Boot == "synced" {
@@ -333,6 +359,9 @@ func runHist(p histParams, hist []string, withDrain bool) *histRun {
 			w.fail(p.Prop, "boot-untrusted", "untrusted peers on the same chain get verified", fmt.Sprintf("only %d of %d untrusted peers became ready", w.untrustedReady(), p.Cfg.Untrusted))
 		}
 		w.lastUnsync = w.S.Now
+	}
+	if w.plan != nil {
+		w.plan.suspended = false
 	}
 	if p.Adversarial {
 		w.buildAdversarialTree()
@@ -369,7 +398,11 @@ func runHist(p histParams, hist []string, withDrain bool) *histRun {
 			w.PanicViolations(p.Prop)
 			if !ok && len(w.viol) == 0 {
 				ctx := core.Ctx()
-				w.fail("C01", "converges-after-drain", fmt.Sprintf("stalled (%s; node in sync flag %v)", classifyStall(w), w.Node.IsReady(ctx)),
+				cls := fmt.Sprintf("stalled (%s; node in sync flag %v)", classifyStall(w), w.Node.IsReady(ctx))
+				if w.devSite != "" {
+					cls += " after " + w.devSite
+				}
+				w.fail("C01", "converges-after-drain", cls,
 					fmt.Sprintf("after the history and a fair drain (answers, pings, clock incl. 61 s and 601 s time-outs) the node has not converged: %s; node tip %d, peer tip %d", why, w.Node.LastHeight(ctx), len(w.Best)-1))
 			}
 			w.chainInvariants("C02")
